@@ -262,6 +262,17 @@ func (g *Gen) ifStmt(d int) []L.Stmt {
 }
 
 func (g *Gen) numFor(d int) []L.Stmt {
+	if g.n(12, "zerostep") == 0 {
+		// a step of 0 or -0: the loop runs while limit <= index (5.1), so "1, 3, 0" never enters its body and "3, 1, 0"
+		// goes on until it is left by break
+		g.class("for_zero_step")
+		zn := g.fresh("z")
+		step := []L.Expr{num(0), un("-", num(0)), bin("-", num(2), num(2))}[g.n(3, "zerostepform")]
+		return []L.Stmt{
+			&L.NumForStmt{Var: zn, Start: num(1), End: num(3), Step: step, Body: blk(emit(str("zero step body entered"), name(zn)), &L.BreakStmt{})},
+			&L.NumForStmt{Var: zn, Start: num(3), End: num(1), Step: step, Body: blk(emit(str("zero step, downward bounds"), name(zn)), &L.BreakStmt{})},
+			&L.NumForStmt{Var: zn, Start: num(2), End: num(2), Step: step, Body: blk(emit(str("zero step, equal bounds"), name(zn)), &L.BreakStmt{})}}
+	}
 	vn := g.fresh("i")
 	var start, end, step L.Expr
 	ik := KInt
